@@ -1,7 +1,8 @@
 """Thorough tier: the quick rules, plus two things that test the *verdict*.
 
  TWIN     the same rules are evaluated on two behaviour-preserving twins of the
-          current tree (sa/twins.py: re-printed; locals renamed).  A violation
+          current tree (sa/twins.py: re-printed; locals renamed; plain methods
+          of every class in reverse order).  A violation
           that appears only on a twin is reported: the rules are phrased over
           resolved structure, so a violation that a rename or a re-print brings
           to light is a violation of the tree under test that its spelling hid.
@@ -49,6 +50,8 @@ def _worker(args):
       twins.make_unparse_twin(repo_pkg, tmp)
     elif kind == 'rename':
       twins.make_rename_twin(repo_pkg, tmp)
+    elif kind == 'reorder':
+      twins.make_reorder_twin(repo_pkg, tmp)
     else:
       shutil.copytree(repo_pkg, tmp / pathlib.Path(repo_pkg).name)
       r = subprocess.run(['patch', '-p1', '-s', '--no-backup-if-mismatch', '-i', patch],
@@ -82,10 +85,11 @@ def extend(prop, rep):
             seeds.append(d)
         except ValueError:
           pass
-  jobs = [('unparse', prop, repo_pkg, None), ('rename', prop, repo_pkg, None)] + [
+  jobs = [('unparse', prop, repo_pkg, None), ('rename', prop, repo_pkg, None),
+          ('reorder', prop, repo_pkg, None)] + [
       ('control', prop, repo_pkg, str(d / 'patch.diff')) for d in seeds]
   rep.rule('TWIN', 'the verdict is the same on behaviour-preserving twins of the '
-           'tree (re-printed; locals renamed)', floor=0)
+           'tree (re-printed; locals renamed; methods reordered)', floor=0)
   rep.rule('CONTROL', 'every applicable confirmed seeded change of this property '
            'is reported on a scratch copy', floor=0)
   workers = min(16, max(1, len(jobs)), os.cpu_count() or 1)
@@ -94,7 +98,7 @@ def extend(prop, rep):
   missed = []
   applied = 0
   for kind, patch, vio, err in results:
-    if kind in ('unparse', 'rename'):
+    if kind in ('unparse', 'rename', 'reorder'):
       if vio is None:
         rep.note('twin(%s) not evaluated: %s' % (kind, err))
         continue
